@@ -13,6 +13,7 @@ import (
 	"fmt"
 	"math/bits"
 	"strings"
+	"sync/atomic"
 	"time"
 
 	"github.com/makiuchi-d/gozxing/common/reedsolomon"
@@ -140,6 +141,40 @@ func c04AllZero(xs []int) bool {
 	return true
 }
 
+// ---------- watchdog ----------
+
+// Calls into code with data-dependent loops (Divide, Euclid) run under a watchdog: with broken field
+// arithmetic those loops need not terminate.  A hung call leaks a spinning goroutine, so after a few
+// hangs the remaining calls of the run are skipped (the hang itself is already a reported violation).
+var (
+	c04Hangs   int32
+	c04Ctx     *Ctx
+	c04Timeout = 5 * time.Second
+)
+
+const c04MaxHangs = 6
+
+func c04Safe(what interface{}, f func() string) string {
+	if atomic.LoadInt32(&c04Hangs) >= c04MaxHangs {
+		return "TIMEOUT-SKIPPED"
+	}
+	out := SafeT(c04Timeout, f)
+	if out == "TIMEOUT" {
+		atomic.AddInt32(&c04Hangs, 1)
+		if c04Ctx != nil {
+			w := ""
+			switch x := what.(type) {
+			case string:
+				w = x
+			case func() string:
+				w = x()
+			}
+			c04Ctx.Oracle("hang", false, "hang", w, "call did not return within "+c04Timeout.String())
+		}
+	}
+	return out
+}
+
 // ---------- canonicalisation ----------
 
 func c04RSKind(e error) string {
@@ -179,7 +214,7 @@ func c04Join(xs []string) string { return strings.Join(xs, ",") }
 
 func c04Decode(f *c04Field, w []int, twoS int) string {
 	cp := append([]int(nil), w...)
-	return Safe(func() string {
+	return c04Safe(func() string { return fmt.Sprintf("Decode %s %s %d", f.name, ints(w), twoS) }, func() string {
 		e := reedsolomon.NewReedSolomonDecoder(f.f).Decode(cp, twoS)
 		if e != nil {
 			return "ERR:" + c04RSKind(e)
@@ -190,7 +225,7 @@ func c04Decode(f *c04Field, w []int, twoS int) string {
 
 func c04Encode(enc *reedsolomon.ReedSolomonEncoder, w []int, ec int) (string, []int) {
 	cp := append([]int(nil), w...)
-	out := Safe(func() string {
+	out := c04Safe(func() string { return fmt.Sprintf("Encode %s %d", ints(w), ec) }, func() string {
 		if e := enc.Encode(cp, ec); e != nil {
 			return c04Err(e)
 		}
@@ -292,6 +327,10 @@ func runC04(c *Ctx) {
 		"double-error position pattern for (3,2),(5,4),(10,6),(19,7), the Chien-search boundary roots, malformed calls; " +
 		"non-trivial = distinct op line; oracle = reference arithmetic in the harness (independent of the library's tables)"
 	all := append(append([]*c04Field{}, c04Fields...), c04Aliases...)
+	c04Ctx = c
+	if c.Thorough {
+		c04Timeout = 20 * time.Second
+	}
 	t0 := time.Now()
 	lap := func(what string) {
 		c.Remark(fmt.Sprintf("section %s done at %.1fs", what, time.Since(t0).Seconds()))
@@ -502,14 +541,14 @@ func runC04(c *Ctx) {
 			return
 		}
 		pn, qn := ints(p.GetCoefficients()), ints(q.GetCoefficients())
-		c.Cmp("poly", fmt.Sprintf("c04 padd %s %s", pn, qn), Safe(func() string { return c04PolyOut(p.AddOrSubtract(q)) }))
-		c.Cmp("poly", fmt.Sprintf("c04 pmul %s %s %s", f.name, pn, qn), Safe(func() string { return c04PolyOut(p.Multiply(q)) }))
+		c.Cmp("poly", fmt.Sprintf("c04 padd %s %s", pn, qn), c04Safe("AddOrSubtract "+pn+" "+qn, func() string { return c04PolyOut(p.AddOrSubtract(q)) }))
+		c.Cmp("poly", fmt.Sprintf("c04 pmul %s %s %s", f.name, pn, qn), c04Safe("Multiply "+pn+" "+qn, func() string { return c04PolyOut(p.Multiply(q)) }))
 		s := r.Pick([]int{0, 1, 2, f.size - 1, r.Intn(f.size), r.Intn(f.size)})
-		c.Cmp("poly", fmt.Sprintf("c04 pscale %s %s %d", f.name, pn, s), Safe(func() string { return c04PolyOut(p.MultiplyBy(s), nil) }))
+		c.Cmp("poly", fmt.Sprintf("c04 pscale %s %s %d", f.name, pn, s), c04Safe("MultiplyBy "+pn, func() string { return c04PolyOut(p.MultiplyBy(s), nil) }))
 		d := r.Intn(6)
-		c.Cmp("poly", fmt.Sprintf("c04 pmono %s %s %d %d", f.name, pn, d, s), Safe(func() string { return c04PolyOut(p.MultiplyByMonomial(d, s)) }))
+		c.Cmp("poly", fmt.Sprintf("c04 pmono %s %s %d %d", f.name, pn, d, s), c04Safe("MultiplyByMonomial "+pn, func() string { return c04PolyOut(p.MultiplyByMonomial(d, s)) }))
 		c.Cmp("poly", fmt.Sprintf("c04 bmono %d %d", d, s), Safe(func() string { return c04PolyOut(f.f.BuildMonomial(d, s)) }))
-		c.Cmp("poly", fmt.Sprintf("c04 pdiv %s %s %s", f.name, pn, qn), Safe(func() string {
+		c.Cmp("poly", fmt.Sprintf("c04 pdiv %s %s %s", f.name, pn, qn), c04Safe("Divide "+f.name+" "+pn+" "+qn, func() string {
 			qq, rr, e := p.Divide(q)
 			if e != nil {
 				return c04Err(e)
@@ -561,6 +600,14 @@ func runC04(c *Ctx) {
 		if nmax > f.size-1 {
 			nmax = f.size - 1
 		}
+		defer func() {
+			// long words: keep the parity count moderate (cost is quadratic in it) except for one case in 300
+			if k+ec > 300 && ec > 64 && r.Intn(300) != 0 {
+				n := k + ec
+				ec = r.Range(1, 64)
+				k = n - ec
+			}
+		}()
 		switch r.Intn(8) {
 		case 0: // full length
 			ec = r.Range(1, c04Min(nmax-1, 40))
